@@ -508,6 +508,23 @@ func c04Phase(c *vk.Ctx, r *rand.Rand, natTimeout time.Duration, expiry bool) bo
 				c.Violation("C04/two-clients-share-an-outbound-address", map[string]any{"outbound_port": pA, "clients": []string{za.LocalAddr().String(), zb.LocalAddr().String()}})
 				return false
 			}
+			// the same two clients again: each stays in its own association, on its own outbound address
+			idA2, idB2 := nextID(c.Batch), nextID(c.Batch)
+			za.WriteToUDP(ssUDP(kz, randBytes(r, kz.Codec().C.SaltSize), tgt.addr(), mkUDPPayload(idA2, 0, 0, 24)), &net.UDPAddr{IP: a1.IP, Zone: "vlab0", Port: w.rig.Port})
+			zb.WriteToUDP(ssUDP(kz, randBytes(r, kz.Codec().C.SaltSize), tgt.addr(), mkUDPPayload(idB2, 0, 0, 24)), &net.UDPAddr{IP: a0.IP, Zone: "vlab1", Port: w.rig.Port})
+			gA2, okA2 := tgt.waitID(idA2, udpB)
+			gB2, okB2 := tgt.waitID(idB2, udpB)
+			c.Eval("zoned-clients|second-datagram")
+			if !okA2 || !okB2 {
+				c.Violation("C04/valid-datagram-not-forwarded", map[string]any{"clients": "zoned link-local pair, second datagram", "a": okA2, "b": okB2})
+				return false
+			}
+			_, pA2, _ := net.SplitHostPort(gA2.From)
+			_, pB2, _ := net.SplitHostPort(gB2.From)
+			if pA2 != pA || pB2 != pB {
+				c.Violation("C04/one-client-several-outbound-addresses-in-one-association", map[string]any{"clients": "zoned link-local pair", "outbound_first": []string{pA, pB}, "outbound_second": []string{pA2, pB2}, "history": "two datagrams of each client right after one another (association timeout not reached)"})
+				return false
+			}
 			c.Count("zoned_client_pairs_separated", 1)
 		} else {
 			c.Note("zoned client pair could not be bound: %v %v", errA, errB)
